@@ -95,6 +95,8 @@ package netpoll
 //@   property C13
 //@   requires connok(c)
 //@   ensures yes ==> idleUnlocked
+//@   note idle also means nothing buffered in either direction: no unread input and no output (flushed-but-unsent bytes included) waiting for the peer
+//@   ensures yes ==> c.inputBuffer.length == 0 && c.outputBuffer.length == 0
 //@   modifies idleUnlocked
 //@   ghost at entry: idleUnlocked = false
 //@   ghost after call (*locker).isUnlock#1: idleUnlocked = result
@@ -162,6 +164,8 @@ package netpoll
 //@   modifies world, orReReg, acUntrack, acStored, acConnect, acActive, connection.setup, prepDone, prepOK, prepRegistered, runFailed, FDOperator.owned, locker.sealed_heldP, locker.heldP, locker.heldC, operatorCache.ocl, ocBase, cbRuns
 //@   loop 1 invariant 0 <= retryTimeIndex && retryTimeIndex < 7 && !orReReg && s.ln != nil && s.operator.poll != nil && s.operator.detached >= 0 && s.operator.detached < 2147483640
 //@   ghost before call (*FDOperator).Control#1: assert arg1 == 1; orReReg = true
+//@   note accepting resumes once descriptors are available again: the pause between two accept attempts is bounded (at most one second)
+//@   ghost before call time.Sleep#1: assert arg0 >= 0 && arg0 <= 1000000000
 
 // ---- dialing (net_dialer.go, net_sock.go, net_netfd.go, net_polldesc.go): C14 ----
 // the deadline error is created once at package initialisation and never reassigned
